@@ -53,6 +53,7 @@ def httpEvJson : Http.Ev → Json
   | .push p hs => Json.arr #["push", Json.str p, jsonOfHeaders hs]
   | .streamClosed => Json.arr #["streamClosed"]
   | .access st => Json.arr #["access", optJson toJson st]
+  | .spawnClose => Json.arr #["spawnClose"]
 
 def httpStName : Http.St → String
   | .request => "REQUEST" | .response => "RESPONSE" | .trailers => "TRAILERS" | .closed => "CLOSED"
@@ -127,6 +128,7 @@ def wsEvJson : Ws.Ev → Json
   | .streamClosed => Json.arr #["streamClosed"]
   | .access st => Json.arr #["access", toJson st]
   | .spawnPings => Json.arr #["spawnPings"]
+  | .spawnClose => Json.arr #["spawnClose"]
 
 def wsStName : Ws.St → String
   | .handshake => "HANDSHAKE" | .connected => "CONNECTED" | .response => "RESPONSE" | .closed => "CLOSED" | .httpClosed => "HTTPCLOSED"
